@@ -27,7 +27,7 @@ func init() {
 		Run:     run,
 		Rule: "cases: Set/SetOne/Del/DelOne/Remove/RemoveOne/Modify/ModifyOne with paths from C05's generator (last fragment of every supported kind; slices, unions, wildcards, filters and descents in inner positions) on deep copies of unique-leaf trees, scalar and container replacement values, " +
 			"a scalar-rewriting modifier and an array-appending modifier, plus the slice lattice for Remove; after each call the data is compared with the state J's locations prescribe (exact for Remove, Del, Modify; postconditions for Set), *One forms must change at most one location, " +
-			"the gen twin must end in the corresponding state, the same request on jp.Keyed/jp.RemovableIndexed collections and (Remove) on typed Go slices must end in the state reached on maps and slices, and failures must be 'can not ...' errors, never panics. also magnitudes at and near the int limits, and Remove/RemoveOne/Modify through $[?(@ op $[k])] and $.list[?(@ op $.list[k])] for every array over {1,2,3} of length 2-4 (a sample of length 5), every k and comparison. non-trivial: J selects at least one location or the path creates elements; distinct by digest of (operation, path, data)",
+			"the gen twin must end in the corresponding state, the same request on jp.Keyed/jp.RemovableIndexed collections and (Remove) on typed Go slices must end in the state reached on maps and slices, and failures must be 'can not ...' errors, never panics. also magnitudes at and near the int limits, and Remove/RemoveOne/Modify through $[?(@ op $[k])] and $.list[?(@ op $.list[k])] for every array over {1,2,3} of length 2-4 (a sample of length 5), every k and comparison. also Set/SetOne/Modify/ModifyOne of nil and of a string below maps reached by reflection (a named map type, a pointer to a map). non-trivial: J selects at least one location or the path creates elements; distinct by digest of (operation, path, data)",
 		Assumptions: []string{
 			"removals happen innermost first and a filter further out is evaluated on the data as it is by then: for Remove/Del with a filter every state reached by removing, step by step, outermost selected locations of the current state is accepted, each step strictly nearer to the root than the one before (a bounded search; hitting the bound leaves the case undecided)",
 			"Set: a location above a member that the call creates may hold a container instead of the value (the inner location was written last)",
@@ -1192,6 +1192,12 @@ func run(c *mon.Ctx) {
 			}
 		}
 	}
+	// maps reached by reflection (a named map type, a pointer to a map) as the parent of the last fragment:
+	// storing nil keeps the member (with a nil value), other members stay, Get returns the nil afterwards
+	if c.Mine(idx + 1) {
+		ck.reflectedMaps()
+	}
+	idx++
 	// a filter whose operand is rooted at the document and points into the very array being filtered:
 	// every array over {1,2,3} of length 2-4 (and one of length 5), every position, every comparison
 	for L := 2; L <= 5; L++ {
@@ -1274,4 +1280,69 @@ func en(e int) int {
 		return 1<<31 - 1
 	}
 	return e
+}
+
+type namedMap map[string]any
+
+func (ck *checker) reflectedMaps() {
+	c := ck.c
+	mk := func(kind string) (any, func() map[string]any) {
+		switch kind {
+		case "named-map":
+			m := namedMap{"k": int64(1), "z": int64(2)}
+			return map[string]any{"p": m}, func() map[string]any { return m }
+		case "pointer-to-map":
+			m := map[string]any{"k": int64(1), "z": int64(2)}
+			return map[string]any{"p": &m}, func() map[string]any { return m }
+		default:
+			m := namedMap{"k": int64(1), "z": int64(2)}
+			return []any{m}, func() map[string]any { return m }
+		}
+	}
+	for _, kind := range []string{"named-map", "pointer-to-map", "named-map-in-list"} {
+		for _, op := range []string{"Set", "SetOne", "Modify", "ModifyOne"} {
+			for _, val := range []any{nil, "S"} {
+				data, inner := mk(kind)
+				x := jp.R().C("p").C("k")
+				if kind == "named-map-in-list" {
+					x = jp.R().N(0).C("k")
+				}
+				cs := map[string]any{"op": op, "path": x.String(), "parent": kind, "value": fmt.Sprint(val)}
+				c.Begin("jp mutation (reflected map)", cs)
+				c.Cover("lattice:reflected-map-parent")
+				var err error
+				pn := mon.Guard(func() {
+					switch op {
+					case "Set":
+						err = x.Set(data, val)
+					case "SetOne":
+						err = x.SetOne(data, val)
+					case "Modify":
+						_, err = x.Modify(data, func(any) (any, bool) { return val, true })
+					default:
+						_, err = x.ModifyOne(data, func(any) (any, bool) { return val, true })
+					}
+				})
+				c.Eval(1)
+				subject := "jp.Expr." + op + "(reflected map)"
+				switch {
+				case pn != nil:
+					c.Violation(subject, "panic", kind+"/"+mon.FaultClass(pn.Msg), cs, "result or error", pn.String())
+					continue
+				case err != nil:
+					c.Cover("reflected-map:error")
+					continue
+				}
+				m := inner()
+				got, has := m["k"]
+				if !has || got != val || m["z"] != int64(2) || len(m) != 2 {
+					c.Violation(subject, "state", kind, cs, fmt.Sprintf("k=%v z=2", val), fmt.Sprintf("%v", map[string]any(m)))
+					continue
+				}
+				if g := x.Get(data); len(g) != 1 || g[0] != val {
+					c.Violation(subject, "get-after-set", kind, cs, fmt.Sprint([]any{val}), fmt.Sprint(g))
+				}
+			}
+		}
+	}
 }
